@@ -139,6 +139,17 @@ theorem choice_roundtrip (name : String) (acc : Bool) (n : Nat) (ops : List PyVa
   obtain ⟨_, ht, hn, hw⟩ := choice_invariant name acc n ops c h
   exact result_choice_roundtrip c ht hn hw
 
+/-- `update` converts numpy scalars on entry, so after any history the accumulated
+    values of a CHOICE result are Python scalars: the loaded result is then
+    *identical* to the original, not only equal up to `norm`. -/
+theorem choice_roundtrip_exact (name : String) (acc : Bool) (n : Nat) (ops : List PyVal) (c : Choice)
+    (h : runChoice (choiceInit name acc n) ops = .ok c) :
+    resultFromJson (resultToJson c.toResult) = .ok c.toResult := by
+  have hp := runChoice_plain ops _ c (by rfl) h
+  have := choice_roundtrip name acc n ops c h
+  rw [choice_toResult_norm, hp] at this
+  exact this
+
 /-- saving and loading a loaded result again changes nothing (every result the
     two theorems above cover: `goodResult`), and its JSON text is the original -/
 theorem result_second_roundtrip (r : Result) (h : goodResult r) :
@@ -153,7 +164,7 @@ theorem result_second_roundtrip (r : Result) (h : goodResult r) :
 /-- non-vacuity: the history 3, 1, int8(0), -1 on four choices is accepted
     (the negative index counts for the last choice) -/
 example : (runChoice (choiceInit "c" true 4) [.int 3, .int 1, .npint true 8 0, .int (-1)]).toOption.map
-    (fun c => (c.counts, c.total)) = some ([1, 1, 0, 2], 4) := by decide
+    (fun c => (c.counts, c.total, c.valueList.length)) = some ([1, 1, 0, 2], 4, 4) := by decide
 
 /-! ## SimulationResults -/
 
@@ -218,6 +229,38 @@ theorem save_unknown_extension_rejected (fr : Nat → PyFloat → String) (st : 
     (hp : s.params = n :: rest) (hn : getFilename fr n.parameters txt tpl = .ok stem)
     (hfmt : fmtOf (normExt ext) = .none) : saveToFile fr st s txt tpl ext = raise .KeyError :=
   saveToFile_unknown_ext fr st s txt tpl ext stem n rest hp hn hfmt
+
+/-- Robustness R4 (rejected calls): a `save_to_file` that raises leaves the object
+    (every field, `original_filename` included) and the file store unchanged. -/
+theorem save_rejected_leaves_state (fr : Nat → PyFloat → String) (st : Store) (s : SimResults)
+    (txt : String) (tpl : List Seg) (ext : String) (e : Err)
+    (h : (saveStep fr st s txt tpl ext).2 = .error e) : (saveStep fr st s txt tpl ext).1 = (st, s) := by
+  unfold saveStep at h ⊢
+  cases hs : saveToFile fr st s txt tpl ext with
+  | error e' => rfl
+  | ok r => rw [hs] at h; obtain ⟨st', s', f⟩ := r; cases h
+
+/-- … and a successful one changes nothing of the object but `original_filename`
+    (R3: saving does not modify what is saved). -/
+theorem save_modifies_only_original_filename (fr : Nat → PyFloat → String) (st st' : Store)
+    (s s' : SimResults) (txt : String) (tpl : List Seg) (ext : String) (f : FName)
+    (h : saveToFile fr st s txt tpl ext = .ok (st', s', f)) :
+    s' = { s with originalFilename := .str (txt ++ normExt ext) } := by
+  unfold saveToFile at h
+  cases hp : s.params with
+  | nil => simp only [hp] at h; cases h
+  | cons n rest =>
+    simp only [hp] at h
+    cases hg : getFilename fr n.parameters txt tpl with
+    | error e => rw [hg] at h; cases h
+    | ok stem =>
+      rw [hg] at h
+      simp only [bind_ok] at h
+      cases hf : fmtOf (normExt ext) with
+      | none => rw [hf] at h; cases h
+      | some fmt =>
+        rw [hf] at h
+        cases fmt <;> (injection h with h; injection h with _ h; injection h with h _; exact h.symm)
 
 /-! ## file names -/
 
